@@ -109,6 +109,18 @@ CHECKS = {
         note="The allowed set is stated independently from the property text; payload trees are bounded (depth <= 4, one tagged node plus nested ones in members).",
         design_ref="DESIGN.md section 3 C04",
     ),
+    "C02": dict(
+        engine="S+N",
+        technique="exhaustive enumeration of generated class shapes (programs) x requested names x request kinds against a reference predicate, through the real daemon dispatch",
+        text="About 450-500 class shapes generated with the real @expose/@oneway decorators (12 member kinds x base/subclass/override x 4 exposure modes x oneway x public/"
+             "private/dunder/reserved names) are registered in a real daemon; for each, ~45 requested names (the member, its private and dunder variants, reserved dunder "
+             "names, dotted paths, a unicode look-alike, empty and non-string names) are sent as normal call, oneway call, batch, attribute read and attribute write "
+             "past the client-side filter. Oracle from the shape specification alone: code runs only for the named exposed non-private member and once; refused "
+             "requests get an error reply (none for oneway), leave instance and class dictionaries unchanged; the advertised metadata equals the servable set and "
+             "everything served is advertised.",
+        note="An exposed free function stored in an attribute is explored but not judged; one serializer (gates are serializer independent).",
+        design_ref="DESIGN.md section 3 C02",
+    ),
 }
 
 NOT_YET = {}
